@@ -1,5 +1,6 @@
 import Driver.Fam.Val
 import CifModel.Model.Heap
+import CifModel.Model.HeapClone
 /-
   family `valheap` (properties C19 / C16): the same operation sequences as family `val`, executed on the HEAP model
   (Model/Heap.lean).  The answer is, per operation, the change in the number of live heap blocks the model predicts —
@@ -198,10 +199,10 @@ def freeObj (h : Heap) (a : Nat) : Option Heap :=
   | some (.entry _ _ _) => freeDetached FUEL h a
   | _ => none
 
-/-- cif_value_clone(src, &dst) onto the existing object at `t` (fields inline in a `val` or `entry` block): scratch copy,
-    clean, move, release the scratch object -/
-def cloneOntoAt (h : Heap) (t : Nat) (x : V) : Option Heap := do
-  let (c, h1) := buildNew h x
+/-- cif_value_clone(src, &dst) onto the existing object at `t` (fields inline in a `val` or `entry` block): the scratch copy
+    is made by READING the source object at `sa` (`cloneNewH`), then clean, move, release the scratch object -/
+def cloneOntoAt (h : Heap) (t : Nat) (sa : Nat) : Option Heap := do
+  let (c, h1) ← cloneNewH FUEL h sa
   let new ← getHV h1 c
   let old ← getHV h1 t
   let h2 ← cleanVal FUEL h1 old
@@ -277,20 +278,19 @@ def step (st : St) (op : List String) : Option St :=
   | ["cln", a, b] => do
       let src ← parseRef a; let dst ← parseRef b
       let sa ← resolveRef st src
-      let x ← absAt st.h sa
       match dst.root, dst.path with
       | .val i, [] =>
         match st.vals.getD i none with
-        | none =>
-          let (c, h') := buildNew st.h x
+        | none => do
+          let (c, h') ← cloneNewH FUEL st.h sa
           pure { (setSlot st i (some c)) with h := h' }
         | some t => if t = sa then pure st else do
-            let h' ← cloneOntoAt st.h t x
+            let h' ← cloneOntoAt st.h t sa
             pure { st with h := h' }
       | _, _ => do
           let t ← resolveRef st dst
           if t = sa then pure st else do
-            let h' ← cloneOntoAt st.h t x
+            let h' ← cloneOntoAt st.h t sa
             pure { st with h := h' }
   | ["init", a, k] => do
       let r ← parseRef a; let kind ← k.toNat?; let t ← resolveRef st r
@@ -344,8 +344,7 @@ def step (st : St) (op : List String) : Option St :=
           | some sr => do
             let sa ← resolveRef st sr
             if sa = t then pure st else do
-              let x ← absAt st.h sa
-              let h' ← cloneOntoAt st.h t x
+              let h' ← cloneOntoAt st.h t sa
               pure { st with h := h' }
       | some _ =>
         match src with
@@ -354,14 +353,14 @@ def step (st : St) (op : List String) : Option St :=
       | none => none
   | ["lins", a, i, s] => do
       let r ← parseRef a; let idx ← i.toNat?; let src ← parseSrc s; let la ← resolveRef st r
-      let x : Option V ← match src with
+      let x : Option Nat ← match src with
         | none => some none
-        | some sr => do let sa ← resolveRef st sr; let v ← absAt st.h sa; pure (some v)
+        | some sr => do let sa ← resolveRef st sr; pure (some sa)
       match getHV st.h la with
       | some (.lst elems size) =>
         if idx > size then pure st
         else do
-          let (hv', h1) ← listInsertH st.h (.lst elems size) idx x
+          let (hv', h1) ← listInsertAddrH FUEL st.h (.lst elems size) idx x
           let h2 ← putHV h1 la hv'
           pure { st with h := h2 }
       | some _ => pure st
@@ -424,18 +423,25 @@ def step (st : St) (op : List String) : Option St :=
               let h1 ← entryRespell false h0 e key.1
               let h2 ← free h1 kn
               pure { st with h := h2 }
-            else do
-              let x : Option V ← match srcAddr with
-                | none => some none
-                | some sa => (absAt st.h sa).map some
-              let (ents', h1) ← mapSetItemH FUEL st.h ents nk key.1 x
-              let h2 ← putEnts h1 m ents'
-              pure { st with h := h2 }
+            else
+              -- the C's order: new spelling, then cif_value_clone(src, &entry value) — scratch copy read from the source
+              -- first (it may lie inside the entry), clean, move — resp. clean + unknown for NULL; normalised key released.
+              -- For a source outside the map this is `mapSetItemAddrH` (= `mapSetItemH` on the value represented:
+              -- mapSetItemAddrH_eq), which the driver uses when it succeeds.
+              match mapSetItemAddrH FUEL FUEL st.h ents nk key.1 srcAddr with
+              | some (ents', h1) => do
+                let h2 ← putEnts h1 m ents'
+                pure { st with h := h2 }
+              | none => do
+                let (kn, h0) := alloc st.h (.str nk)
+                let h1 ← entryRespell false h0 e key.1
+                let h2 ← match srcAddr with
+                  | none => entrySetValue FUEL h1 e none
+                  | some sa => cloneOntoAt h1 e sa
+                let h3 ← free h2 kn
+                pure { st with h := h3 }
           | some none => do
-              let x : Option V ← match srcAddr with
-                | none => some none
-                | some sa => (absAt st.h sa).map some
-              let (ents', h1) ← mapSetItemH FUEL st.h ents nk key.1 x
+              let (ents', h1) ← mapSetItemAddrH FUEL FUEL st.h ents nk key.1 srcAddr
               let h2 ← putEnts h1 m ents'
               pure { st with h := h2 }
     else if opn == "trem" || opn == "prem" then do
